@@ -133,6 +133,12 @@ Get ==
     /\ UNCHANGED <<step, net, rec, pc, target, fail, fired, pre, origin, restarted>>
     /\ hist' = Append(hist, Outcome("get", 0, FALSE))
 
+\* tebd: get_current_density_matrix(sites): pure observation of the current chain state
+Peek ==
+    /\ pc = "idle" /\ NCalls < MaxCalls /\ step >= 0 /\ Kind = "tebd"
+    /\ UNCHANGED <<step, net, rec, pc, target, fail, fired, pre, origin, restarted>>
+    /\ hist' = Append(hist, Outcome("peek", 0, FALSE))
+
 \* tebd: export the chain state and step, build a new object from them
 Restart ==
     /\ pc = "idle" /\ NCalls < MaxCalls /\ Kind = "tebd" /\ step >= 0
@@ -182,7 +188,7 @@ Init ==
 
 Next ==
     \/ \E t \in 0..MaxStep : Begin(t)
-    \/ IterOk \/ IterFail \/ End \/ Get \/ Restart
+    \/ IterOk \/ IterFail \/ End \/ Get \/ Peek \/ Restart
     \/ ComputeFixed \/ GetFixed
 
 Spec == Init /\ [][Next]_vars
